@@ -146,7 +146,7 @@ CHECKS["C11"] = {
             "(zeros, ff, counter, magic-cookie-, ChannelData-header-, STUN-header-prefixed): header fields, zero padding, round trip, in-place re-encode; (Headers) Decode and IsChannelData on "
             "all numbers x boundary declared lengths and all declared lengths x boundary numbers (thorough: ALL 2^32 headers) x every relation between declared and actual length against the reference "
             "valid <=> len>=4 and 0x4000<=number<=0x7FFF and declared<=len-4, result must be exactly buf[4:4+declared]; (Attrs) each of the 11 TURN attributes: raw values of every length 0..64 x "
-            "content alphabet must error unless right-sized, right-sized values decode to what the RFC layout denotes; typed AddTo->GetFrom round trips over the value domains (all channel numbers, "
+            "content alphabet must error unless right-sized (REQUESTED-ADDRESS-FAMILY: also unless the code is 0x01 or 0x02, the only values of that attribute), right-sized values decode to what the RFC layout denotes; typed AddTo->GetFrom round trips over the value domains (all channel numbers, "
             "protocols, families; thorough: all 2^32 lifetimes, connection ids and raw 4-byte values); XOR-PEER/RELAYED-ADDRESS: all ports x IP patterns x transaction ids and raw values of all "
             "families x lengths 0..64 against an independent XOR decoder. A class is a reference-classified input shape x decoder outcome.",
     "parts": [A("chandata", "./checks/c11", "TestC11ChannelData", gomaxprocs=2, budget={"quick": 60, "thorough": 300}),
